@@ -116,7 +116,11 @@ type Obs struct {
 func safeDo(inst Instance, c *Call) (res StepRes, pan string) {
 	defer func() {
 		if r := recover(); r != nil {
-			pan = firstLine(fmt.Sprint(r)) + " @" + panicSite(string(debug.Stack()))
+			st := string(debug.Stack())
+			if os.Getenv("C20_DEBUG") != "" {
+				fmt.Fprintln(os.Stderr, st)
+			}
+			pan = firstLine(fmt.Sprint(r)) + " @" + panicSite(st)
 		}
 	}()
 	return inst.Do(c), ""
@@ -470,7 +474,11 @@ func renderCalls(seq []*Call) string {
 // rulesAt re-steps the model along seq and reports the rules violated at step i.
 func rulesAt(b Builder, seq []*Call, i int) (string, bool) {
 	m := b.Init()
+	lastLive := m
 	for k := 0; k <= i; k++ {
+		if m.Status() == stLive {
+			lastLive = m
+		}
 		nx, e, ok := m.Step(seq[k])
 		if !ok {
 			return "?", false
@@ -485,6 +493,10 @@ func rulesAt(b Builder, seq []*Call, i int) (string, bool) {
 			case stDead:
 				// the sticky error repeats the text of the first error
 				r, multi := rulesAt(b, seq, e.DeadPos)
+				// if the implementation did not make that error sticky, the text is the call's own verdict
+				if _, e2, ok2 := lastLive.Step(seq[k]); ok2 && e2.NViol > 1 {
+					multi = true
+				}
 				return "sticky(" + r + ")", multi
 			default:
 				return "compiled", false
